@@ -619,7 +619,16 @@ func (e *Engine) elemPtr(o *Obj, cells []Value, idx *Term, signed bool, what str
 		}
 		return Ptr{O: o, C: &cells[i]}
 	}
-	inb := e.ts.Cmp(OpUlt, idx, e.ts.Const(idx.W, uint64(n)))
+	// widen to 64 bits so that the comparison with n cannot wrap (a negative signed index
+	// becomes a huge unsigned one and is out of range)
+	if idx.W < 64 {
+		if signed {
+			idx = e.ts.SExt(idx, 64)
+		} else {
+			idx = e.ts.ZExt(idx, 64)
+		}
+	}
+	inb := e.ts.Cmp(OpUlt, idx, e.ts.Const(64, uint64(n)))
 	if !e.decideBool(inb) {
 		e.targetPanic("index out of range (symbolic index, length %d, %s)", n, what)
 	}
